@@ -197,12 +197,34 @@ RULE = ("generated YAML node trees (tags !expr/!oneof/!ordisabled/!wait-optional
         "2- and 3-cycles, cycle through the root, other spellings and absolute paths of one file, missing, invalid, malformed "
         "foreach steps, random graphs) through engine.Parse (with the cache of the CLI and with an in-memory cache holding every file, some with the text of another one) and engine.SubworkflowCache against Arca.Model.SubWf (distinct = "
         "distinct file system; non-trivial = more than a leaf workflow); byte-level mutations of valid texts as a fuzz test "
-        "(oracle: value or error, never panic or timeout)")
+        "(oracle: value or error, never panic or timeout); fixed corner cases of tagged values that the SDK's schema constructors "
+        "refuse (one-of discriminator colliding with an option's field, in an output, in a list, in a step input): Prepare returns an "
+        "error, never panics")
+
+
+def mon_c11_corners(case, verdict, chk):
+    """tagged values in corners the SDK's schema constructors refuse (a one-of discriminator that collides with a field of an
+    option, ...): preparing the workflow file returns a workflow or an error, it never panics (fixed cases of `vharness optlist`)"""
+    if case.get("kind") != "optlist" or case.get("tag") != "corner":
+        return
+    tag = "corner:%s:%s" % (case.get("position"), "panic" if case.get("panic") else "refused" if case.get("prepare_err") else "accepted")
+    chk.hist[tag] = chk.hist.get(tag, 0) + 1
+    if case.get("panic") or case.get("timeout"):
+        chk.violation("C11:prepare-panic:" + str(case.get("position")),
+                      "preparing a workflow file with %s panicked or hung instead of returning an error: %s"
+                      % (case.get("position"), str(case.get("panic"))[:200]),
+                      {"kind": "impl-counterexample", "case": case, "replay_harness": ["optlist"]})
+
+
+S_CORNERS = {"name": "tag-corners", "harness": lambda t, s: ["optlist"], "driver": None, "monitor": mon_c11_corners,
+             "nontrivial": lambda c: c.get("tag") == "corner",
+             "sample": lambda c: {k: c.get(k) for k in ("id", "tag", "position", "prepare_err", "returned", "panic")}}
+
 
 SPEC = {
     "module": "Arca.Props.C11",
     "theorems": THEOREMS,
     "pins": PARSE_PINS,
-    "streams": [S_TREE, S_FS, S_BYTES],
+    "streams": [S_TREE, S_FS, S_BYTES, S_CORNERS],
     "rule": RULE,
 }
